@@ -8,6 +8,7 @@ use crate::tok::*;
 use serde_json::{json, Value};
 use sqldatetime::{Date, IntervalDT, IntervalYM, OracleDate, Time, Timestamp};
 
+#[derive(Clone)]
 pub enum S {
     Rt(V),
     DecBin(Ty, i64),
@@ -15,6 +16,17 @@ pub enum S {
     DecJson(Ty, String),
     /// history: a serialization whose output sink fails after `cap` bytes, then an ordinary round trip of the second value
     AfterFail(V, usize, V),
+    /// history: a serialization whose writer panics (caller code; the panic is contained), then an ordinary round trip
+    AfterPanic(V, V),
+}
+struct PanickingWriter;
+impl std::io::Write for PanickingWriter {
+    fn write(&mut self, _: &[u8]) -> std::io::Result<usize> {
+        panic!("the writer panics (harness, contained)")
+    }
+    fn flush(&mut self) -> std::io::Result<()> {
+        Ok(())
+    }
 }
 /// a sink that accepts `cap` bytes and then reports an I/O error (a closed socket, a full buffer)
 struct LimitedWriter {
@@ -51,6 +63,7 @@ impl Case for S {
             S::DecBin(ty, raw) => json!({"kind": "decode-binary-integer", "type": ty.name(), "raw": raw}),
             S::DecBinBytes(ty, b) => json!({"kind": "decode-binary-bytes", "type": ty.name(), "bytes": b}),
             S::DecJson(ty, t) => json!({"kind": "decode-json", "type": ty.name(), "json": t}),
+            S::AfterPanic(a, b) => json!({"kind": "roundtrip-after-panicking-writer", "first": a.to_json(), "first_show": a.show(), "value": b.to_json(), "show": b.show()}),
             S::AfterFail(a, cap, b) => json!({"kind": "roundtrip-after-failed-write", "first": a.to_json(), "first_show": a.show(), "sink_capacity": cap, "value": b.to_json(), "show": b.show()}),
         }
     }
@@ -129,6 +142,21 @@ fn raw_in_range(ty: Ty, raw: i64) -> bool {
 pub fn check(st: &mut Stats, c: &S) {
     crate::props::c05::pin_clock();
     match c {
+        S::AfterPanic(a, b) => {
+            if let Some(lv) = a.to_lib() {
+                st.op(Op::S_json_ser);
+                let _ = guard(move || match lv {
+                    LV::Date(x) => serde_json::to_writer(PanickingWriter, &x).is_ok(),
+                    LV::Time(x) => serde_json::to_writer(PanickingWriter, &x).is_ok(),
+                    LV::Ts(x) => serde_json::to_writer(PanickingWriter, &x).is_ok(),
+                    LV::Ora(x) => serde_json::to_writer(PanickingWriter, &x).is_ok(),
+                    LV::YM(x) => serde_json::to_writer(PanickingWriter, &x).is_ok(),
+                    LV::DT(x) => serde_json::to_writer(PanickingWriter, &x).is_ok(),
+                });
+                st.bump("serializations into a panicking writer (contained)");
+            }
+            check(st, &S::Rt(*b));
+        }
         S::AfterFail(a, cap, b) => {
             if let Some(lv) = a.to_lib() {
                 st.op(Op::S_json_ser);
@@ -172,6 +200,40 @@ pub fn check(st: &mut Stats, c: &S) {
                     }
                 }
                 Err(e) => st.fail(format!("C15/{}/json/serialize-fails", ty.name()), format!("{}: {}", v.show(), e)),
+            }
+            // the compact form under the other integer encodings of bincode (varint + zig-zag, big endian): each must
+            // round-trip on its own terms
+            {
+                use bincode::Options;
+                macro_rules! rt_opts {
+                    ($x:expr, $t:ty, $wrap:expr) => {{
+                        let var = bincode::options().serialize($x).ok().and_then(|b| bincode::options().deserialize::<$t>(&b).ok()).map($wrap);
+                        let big = bincode::options().with_fixint_encoding().with_big_endian().serialize($x).ok().and_then(|b| bincode::options().with_fixint_encoding().with_big_endian().deserialize::<$t>(&b).ok()).map($wrap);
+                        // inside a container (the item after it must still be found where the encoding says)
+                        let seq = bincode::serialize(&($x, 7u8, $x)).ok().and_then(|b| bincode::deserialize::<($t, u8, $t)>(&b).ok()).map(|t| (($wrap)(t.0), t.1, ($wrap)(t.2)));
+                        (var, big, seq)
+                    }};
+                }
+                let (var, big, seq) = match &lv {
+                    LV::Date(x) => rt_opts!(x, Date, LV::Date),
+                    LV::Time(x) => rt_opts!(x, Time, LV::Time),
+                    LV::Ts(x) => rt_opts!(x, Timestamp, LV::Ts),
+                    LV::Ora(x) => rt_opts!(x, OracleDate, LV::Ora),
+                    LV::YM(x) => rt_opts!(x, IntervalYM, LV::YM),
+                    LV::DT(x) => rt_opts!(x, IntervalDT, LV::DT),
+                };
+                st.opn(Op::S_bin_ser, 3);
+                st.opn(Op::S_bin_de, 3);
+                if var.map(|b| b.raw()) != Some(lv.raw()) {
+                    st.fail(format!("C15/{}/binary/varint-roundtrip-differs", ty.name()), format!("{} -> {:?}", v.show(), var.map(|b| b.raw())));
+                }
+                if big.map(|b| b.raw()) != Some(lv.raw()) {
+                    st.fail(format!("C15/{}/binary/big-endian-roundtrip-differs", ty.name()), format!("{} -> {:?}", v.show(), big.map(|b| b.raw())));
+                }
+                match seq {
+                    Some((a, 7, b)) if a.raw() == lv.raw() && b.raw() == lv.raw() => {}
+                    other => st.fail(format!("C15/{}/binary/roundtrip-inside-a-tuple-differs", ty.name()), format!("{} -> {:?}", v.show(), other.map(|t| (t.0.raw(), t.1, t.2.raw())))),
+                }
             }
             // compact binary: the raw count, little endian, then back
             match bin {
@@ -328,7 +390,9 @@ pub fn run(ctx: &Ctx, st: &mut Stats) {
     let n = ctx.tier.pick(36, 600_000, ctx.big(12_000_000, 80_000_000));
     ctx.par(st, "random values of all six types through JSON and bincode", false, 0, n, |st, i, rng| {
         let v = rand_value(rng, ALL_TY[(i % 6) as usize]);
-        st.eval_h(hash64(v.show().as_bytes()), &S::Rt(v), check);
+        let c = S::Rt(v);
+        let anchors: Vec<i64> = v.to_lib().and_then(|x| x.day_number()).into_iter().collect();
+        crate::primers::eval_sched(st, rng, hash64(v.show().as_bytes()), &c, &anchors, 0, &[], check);
     });
     // ---- history monitors: the same instant / the same payload through different types back to back; failed writes
     let nh = ctx.tier.pick(40, 200_000, 2_000_000);
@@ -373,7 +437,11 @@ pub fn run(ctx: &Ctx, st: &mut Stats) {
                 let tyb = ALL_TY[rng.below(6) as usize];
                 let b = if rng.chance(1, 2) { vs[rng.below(5) as usize] } else { rand_value(rng, tyb) };
                 let cap = rng.below(34) as usize;
-                st.eval_hist(mix(hx, cap as u64), vec![S::AfterFail(a, cap, b)], check);
+                if rng.chance(1, 4) {
+                    st.eval_hist(mix(hx, 0xBAD), vec![S::AfterPanic(a, b), S::Rt(a)], check);
+                } else {
+                    st.eval_hist(mix(hx, cap as u64), vec![S::AfterFail(a, cap, b)], check);
+                }
             }
         }
     });
@@ -489,6 +557,10 @@ pub fn replay(v: &Value, st: &mut Stats) -> bool {
         "decode-binary-integer" => S::DecBin(ty.unwrap_or(Ty::Date), ji64(v, "raw")),
         "decode-binary-bytes" => S::DecBinBytes(ty.unwrap_or(Ty::Date), v.get("bytes").and_then(|b| b.as_array()).map(|a| a.iter().map(|x| x.as_u64().unwrap_or(0) as u8).collect()).unwrap_or_default()),
         "decode-json" => S::DecJson(ty.unwrap_or(Ty::Date), jstr(v, "json")),
+        "roundtrip-after-panicking-writer" => match (v.get("first").and_then(V::from_json), v.get("value").and_then(V::from_json)) {
+            (Some(a), Some(b)) => S::AfterPanic(a, b),
+            _ => return false,
+        },
         "roundtrip-after-failed-write" => match (v.get("first").and_then(V::from_json), v.get("value").and_then(V::from_json)) {
             (Some(a), Some(b)) => S::AfterFail(a, ji64(v, "sink_capacity") as usize, b),
             _ => return false,
